@@ -12,6 +12,7 @@ def run(chk):
     from . import wrapper_contracts
     wrapper_contracts.control_signals_not_exceptions(chk, "C10")
     state_contracts.create_checkpoint(chk, "C10", want=("C10",))
+    state_contracts.raise_if_orphaned_contract(chk, "C10")   # the orphan test used by operations that already exist (they send no START)
     state_contracts.merge_all_pages(chk, "C10")            # links of operations that already exist (history, checkpoint responses) are registered too
     from . import lockset
     lockset.lock_discipline(chk, "C10", ["_parent_done", "_parent_to_children", "_completed_contexts"])   # precondition of G for the orphan bookkeeping
@@ -19,6 +20,8 @@ def run(chk):
         ex = explore(kind)
         handler_preamble(chk, ex, FUNCS[kind])
         hobl.c10_orphan_before_user(chk, ex)
+        hobl.c10_checked_before_user(chk, ex)
+        hobl.orphan_check_stops(chk, ex)
         hobl.failstop(chk, ex, "orphan", "OrphanedChildException", f"C10.{kind}.orphan_stops_handler",
                       "an OrphanedChildException raised by create_checkpoint leaves the handler unchanged: no further update, no user function afterwards")
     from . import executor_contracts
